@@ -51,6 +51,18 @@ def run(prop, tier):
     if prop == "C03":
         from . import schedules
         extra_jobs = schedules.jobs(tier)
+    if prop == "C02":
+        # data objects only (no fit): every family's data classes, all entry forms, must leave the caller's frames alone.  This is
+        # how the CalTRACK hourly family (whose fit takes 10 s and is otherwise thorough-only) is present in the quick tier.
+        extra_jobs = []
+        for fam in ("caltrack", "hourly", "daily", "billing"):
+            hist = []
+            for did, kind, name, obs in (("b:good", "baseline", "good", "orig"), ("b:gaps", "baseline", "gaps", "orig"),
+                                         ("r:wmonth:orig", "reporting", "wmonth", "orig"), ("r:wweek:absent", "reporting", "wweek", "absent")):
+                for entry in (["frame"] if fam == "caltrack" else ["frame", "dtcol"] + (["series"] if fam in ("daily", "billing") else [])):
+                    hist.append({"op": "make", "d": "%s@%s" % (did, entry), "fam": fam, "kind": kind, "name": name, "obs": obs, "entry": entry})
+            hist.append({"op": "readdf", "d": "b:good@frame"})
+            extra_jobs.append({"hist": hist, "abstract": [{"op": "dataonly", "fam": fam}], "scenario": "dataonly", "fam": fam, "prof": "-"})
     rc = life.run_property(prop, tier, p["scen"], p["per"], COMMON_ASSUMPTIONS + p["extra"], p["rule"], extra_jobs=extra_jobs)
     if prop in ("C02", "C04"):
         # design-level I-layer (information in the evidence; a drift of the I-layer is a machinery failure, never a verdict)
